@@ -164,6 +164,160 @@ def relevant(c):
     return (f, c["m"])
 
 
+def drive_lifetimes(rec, quick):
+    """Objects of one kind and dimension are independent: the result of a call on one of them is the same bytes before and after
+    other objects of the same kind (same or other dimension) are created or deleted.  Every table kind that has a constructor, and
+    FFT64 modules (small product).  The results are compared with the first result obtained for the same arguments."""
+    import ctypes
+    rng = random.Random(rec.seed * 29 + 3)
+    L = Lib.get()
+    free = L.libc.free
+
+    def dbl(n, scale=1 << 20):
+        return np.array([float(rng.randrange(-scale, scale)) for _ in range(n)], dtype=np.float64)
+
+    def table_kind(name, ctor, sig, args_of, call, dtor=None):
+        return (name, lambda m: L.fn(ctor, sig)(*args_of(m)), call, (lambda t: L.fn(dtor, "v p")(t)) if dtor else (lambda t: free(t)))
+
+    def vec_call(fname, nd, out_bytes=None):
+        """call fname(table, data) in place on a copy of nd doubles; returns bytes"""
+        def run(t, m, data):
+            B = Buf(8 * len(data), fill=0x11)
+            B.f64[:] = data
+            L.fn(fname, "v pp")(t, B.addr)
+            return B.u8.tobytes() if B.canaries_ok() else None
+        return run
+
+    def conv_call(fname, in_kind, out_bytes_per_m):
+        def run(t, m, data):
+            X = Buf(8 * len(data), fill=0x11)
+            if in_kind == "i64":
+                X.i64[:] = data.astype(np.int64)
+            elif in_kind == "i32":
+                X = Buf(4 * len(data), fill=0x11)
+                X.view(np.int32)[:] = data.astype(np.int32)
+            else:
+                X.f64[:] = data
+            R = Buf(out_bytes_per_m * m, fill=0x22)
+            L.fn(fname, "v ppp")(t, R.addr, X.addr)
+            return R.u8.tobytes() if (R.canaries_ok() and X.canaries_ok()) else None
+        return run
+
+    def pw_call(fname):
+        def run(t, m, data):
+            A, B, R = Buf(16 * m, fill=0x11), Buf(16 * m, fill=0x12), Buf(16 * m, fill=0x13)
+            A.f64[:] = data[:2 * m]
+            B.f64[:] = data[::-1][:2 * m]
+            R.f64[:] = data[:2 * m] * 3.0
+            L.fn(fname, "v pppp")(t, R.addr, A.addr, B.addr)
+            return R.u8.tobytes() if all(x.canaries_ok() for x in (A, B, R)) else None
+        return run
+
+    def q120_call(fname):
+        def run(t, n, data):
+            B = Buf(32 * n, fill=0x11)
+            B.u64[:] = (data[:4 * n].astype(np.int64).view(np.uint64) * np.uint64(0x9E3779B97F4A7C15))
+            L.fn(fname, "v pp")(t, B.addr)
+            return B.u8.tobytes() if B.canaries_ok() else None
+        return run
+
+    kinds = [
+        table_kind("reim_fft", "new_reim_fft_precomp", "p ww", lambda m: (m, 0), vec_call("reim_fft", 2)),
+        table_kind("reim_ifft", "new_reim_ifft_precomp", "p ww", lambda m: (m, 0), vec_call("reim_ifft", 2)),
+        table_kind("cplx_fft", "new_cplx_fft_precomp", "p ww", lambda m: (m, 0), vec_call("cplx_fft", 2)),
+        table_kind("cplx_ifft", "new_cplx_ifft_precomp", "p ww", lambda m: (m, 0), vec_call("cplx_ifft", 2)),
+        table_kind("reim_fftvec_mul", "new_reim_fftvec_mul_precomp", "p w", lambda m: (m,), pw_call("reim_fftvec_mul")),
+        table_kind("reim_fftvec_addmul", "new_reim_fftvec_addmul_precomp", "p w", lambda m: (m,), pw_call("reim_fftvec_addmul")),
+        table_kind("cplx_fftvec_mul", "new_cplx_fftvec_mul_precomp", "p w", lambda m: (m,), pw_call("cplx_fftvec_mul")),
+        table_kind("cplx_fftvec_addmul", "new_cplx_fftvec_addmul_precomp", "p w", lambda m: (m,), pw_call("cplx_fftvec_addmul")),
+        table_kind("reim4_fftvec_mul", "new_reim4_fftvec_mul_precomp", "p w", lambda m: (m,), pw_call("reim4_fftvec_mul")),
+        table_kind("reim4_fftvec_addmul", "new_reim4_fftvec_addmul_precomp", "p w", lambda m: (m,), pw_call("reim4_fftvec_addmul")),
+        table_kind("reim_from_znx64", "new_reim_from_znx64_precomp", "p ww", lambda m: (m, 50), conv_call("reim_from_znx64", "i64", 16)),
+        table_kind("reim_to_znx64", "new_reim_to_znx64_precomp", "p wdw", lambda m: (m, 4.0, 60), conv_call("reim_to_znx64", "f64", 16)),
+        table_kind("reim_to_tnx", "new_reim_to_tnx_precomp", "p wdw", lambda m: (m, 8.0, 20), conv_call("reim_to_tnx", "f64", 16)),
+        table_kind("cplx_from_znx32", "new_cplx_from_znx32_precomp", "p w", lambda m: (m,), conv_call("cplx_from_znx32", "i32", 16)),
+        table_kind("cplx_from_tnx32", "new_cplx_from_tnx32_precomp", "p w", lambda m: (m,), conv_call("cplx_from_tnx32", "i32", 16)),
+        table_kind("cplx_to_tnx32", "new_cplx_to_tnx32_precomp", "p wdw", lambda m: (m, 16.0 * 1048576.0, 20), conv_call("cplx_to_tnx32", "f64", 8)),
+        table_kind("q120_ntt", "q120_new_ntt_bb_precomp", "p u", lambda m: (m,), q120_call("q120_ntt_bb_avx2"), "q120_del_ntt_bb_precomp"),
+        table_kind("q120_intt", "q120_new_intt_bb_precomp", "p u", lambda m: (m,), q120_call("q120_intt_bb_avx2"), "q120_del_intt_bb_precomp"),
+    ]
+    ok = 0
+    for (name, make, call, delete) in kinds:
+        for m in ([16, 64] if quick else [4, 16, 64, 1024]):
+            data = dbl(4 * m)
+            first = {}
+
+            def use(t, mm, what):
+                nonlocal ok
+                label = "%s m=%d on a table of its own, %s" % (name, mm, what)
+                if not rec.progress(label):
+                    return
+                fp0 = L.fpenv()
+                got = call(t, mm, data if mm == m else data2)
+                why = L.fpenv_check(fp0)
+                rec.case(("lifetime", name, mm == m, what))
+                if got is None or why:
+                    rec.violation(label + ": " + (why or "write outside a buffer"), {"kind": name, "m": mm})
+                elif first.setdefault(mm, got) != got:
+                    rec.violation(label + ": the result differs from the first result for the same arguments", {"kind": name, "m": mm})
+                else:
+                    ok += 1
+            data2 = dbl(8 * m)
+            t1, t2 = make(m), make(m)
+            use(t1, m, "first of two live tables")
+            use(t2, m, "second of two live tables")
+            delete(t1)
+            use(t2, m, "after the other table of this dimension was deleted")
+            t3, t4 = make(m), make(2 * m)
+            use(t2, m, "after two more tables were created")
+            use(t3, m, "third table of this dimension")
+            use(t4, 2 * m, "table of the double dimension")
+            delete(t2)
+            use(t3, m, "after the second table was deleted")
+            use(t4, 2 * m, "table of the double dimension, after a delete")
+            delete(t4)
+            use(t3, m, "after the table of the double dimension was deleted")
+            delete(t3)
+    # FFT64 modules under both dispatch configurations
+    for n in ([16, 256] if quick else [2, 16, 256, 4096]):
+        for mask in (MASK_NONE, MASK_GENERIC):
+            a = np.array([rng.randrange(-(1 << 20), 1 << 20) for _ in range(n)], dtype=np.int64)
+            b = np.array([rng.randrange(-(1 << 20), 1 << 20) for _ in range(n)], dtype=np.int64)
+            first = {}
+
+            def prod(mod, what):
+                nonlocal ok
+                label = "znx_small_single_product N=%d mask=%d, %s" % (n, mask, what)
+                if not rec.progress(label):
+                    return
+                A, B, R = Buf(8 * n, fill=0x11), Buf(8 * n, fill=0x12), Buf(8 * n, fill=0x13)
+                A.i64[:], B.i64[:] = a, b
+                T = Buf(L.call("znx_small_single_product_tmp_bytes", mod), fill=0x14)
+                L.call("znx_small_single_product", mod, R, A, B, T)
+                rec.case(("lifetime", "module", mask, what))
+                got = R.u8.tobytes()
+                if not all(x.canaries_ok() for x in (A, B, R, T)):
+                    rec.violation(label + ": write outside a buffer", {"N": n})
+                elif first.setdefault(0, got) != got:
+                    rec.violation(label + ": the result differs from the first result for the same arguments", {"N": n})
+                else:
+                    ok += 1
+            m1, m2 = L.module(n, FFT64, mask), L.module(n, FFT64, mask)
+            prod(m1, "first of two live modules")
+            prod(m2, "second of two live modules")
+            L.delete_module(m1)
+            prod(m2, "after the other module of this dimension was deleted")
+            m3, m4 = L.module(n, FFT64, mask), L.module(2 * n, FFT64, MASK_NONE)
+            prod(m2, "after two more modules were created")
+            prod(m3, "third module of this dimension")
+            L.delete_module(m2)
+            L.delete_module(m4)
+            prod(m3, "after two deletes")
+            L.delete_module(m3)
+    L.set_cpu_mask(MASK_NONE)
+    rec.data["ok"] = ok
+
+
 def drive_hist(rec, hists):
     rng = random.Random(rec.seed)
     L = Lib.get()
@@ -330,6 +484,9 @@ def run(chk, replay=None):
     for b in bad[:10]:
         chk.violation("history replay: event %d %s: the table used does not match the call, or the result differs from an "
                       "earlier identical call" % (b, events[b]), {"event": events[b], "slice": events[max(0, b - 4):b + 2]})
+    dl = isolated(chk, "lifetimes of tables and modules", drive_lifetimes, (quick,), timeout=1200)
+    chk.traces += dl["ok"] if dl else 0
+    chk.cov["lifetime_uses_identical"] = dl["ok"] if dl else 0
     programs = c16.generate(chk, ["Spqlios_sim.cfg", "Spqlios_sim_ntt.cfg"], 20 if quick else 200, 16, "c15")
     res = isolated_many(chk, [("programs under prefill/offset/interleaving variants, part %d" % i, drive_programs, (programs, i, 8))
                               for i in range(8)], timeout=2400, nproc=8)
